@@ -229,6 +229,31 @@ Proof.
   cbv zeta. repeat split; try (repeat constructor; try eexists; try reflexivity; try discriminate).
 Qed.
 
+(* what remains true: for label sets of ONE label, when CH64 has no collision among the (four) strings it is applied to
+   while fingerprinting the two sets, equal fingerprints force the concatenations key ++ value to be equal — the
+   concatenation is all the hash ever sees of a label (so {a:"bc"} / {ab:"c"} is exactly what is lost) *)
+Theorem distinct_labels_distinct_series_partial : forall (ch64 : string -> N) (k v k' v' : string),
+  collision_free ch64 (hashed ch64 [(k, v)] ++ hashed ch64 [(k', v')]) ->
+  fingerprint ch64 [(k, v)] = fingerprint ch64 [(k', v')] -> (k ++ v)%string = (k' ++ v')%string.
+Proof. exact singleton_distinct. Qed.
+Print Assumptions distinct_labels_distinct_series_partial.
+
+(* the guard is satisfiable, and by a pair of distinct label sets: with CH64 := string length the four hashed strings
+   "ab", "abc" and the two 24-byte descriptors ... are collision free only if the lengths differ; here 2, 3, 24, 24 with the
+   two descriptors different would collide, so the example uses a hash that separates them: the numeric value of the
+   first two bytes *)
+Example distinct_labels_partial_guard_met :
+  let h := fun s : string => match s with
+                             | String a (String b _) => (N_of_ascii a * 256 + N_of_ascii b)%N
+                             | String a EmptyString => N_of_ascii a
+                             | EmptyString => 0%N
+                             end in
+  collision_free h (hashed h [("a", "b")]%string ++ hashed h [("c", "d")]%string).
+Proof.
+  cbv zeta. intros a b Ha Hb. vm_compute in Ha, Hb.
+  destruct Ha as [<-|[<-|[<-|[<-|[]]]]]; destruct Hb as [<-|[<-|[<-|[<-|[]]]]]; vm_compute; intros H; try reflexivity; discriminate H.
+Qed.
+
 (* planner.go GetBreakpoint / breakScript: the pipeline is cut in two without loss or reordering, ClickHouse is never handed
    a stage it cannot run (json without parameters, logfmt, line_format), and the in-process part — when there is one —
    starts at the first such stage                                                                                     *)
